@@ -269,6 +269,54 @@ Definition validate_chmap (family streams coupled : N) (mapping : list N) : opti
 Definition valid_comment_name (name : list N) : bool :=
   negb (is_nil name) && forallb (fun b => negb (b <? 32) && negb (125 <? b) && negb (b =? 61)) name.
 
+(* utf8.ValidString: well-formed UTF-8 (Unicode table 3-7): no overlong
+   forms, no surrogates, nothing above U+10FFFF *)
+Definition utf8_cont (b : N) : bool := (128 <=? b) && (b <=? 191).
+Fixpoint valid_utf8 (l : list N) : bool :=
+  match l with
+  | [] => true
+  | b0 :: t =>
+      if b0 <? 128 then valid_utf8 t
+      else if (194 <=? b0) && (b0 <=? 223) then
+        match t with
+        | b1 :: t1 => utf8_cont b1 && valid_utf8 t1
+        | _ => false
+        end
+      else if (224 <=? b0) && (b0 <=? 239) then
+        match t with
+        | b1 :: b2 :: t2 =>
+            (if b0 =? 224 then (160 <=? b1) && (b1 <=? 191)
+             else if b0 =? 237 then (128 <=? b1) && (b1 <=? 159)
+             else utf8_cont b1)
+            && utf8_cont b2 && valid_utf8 t2
+        | _ => false
+        end
+      else if (240 <=? b0) && (b0 <=? 244) then
+        match t with
+        | b1 :: b2 :: b3 :: t3 =>
+            (if b0 =? 240 then (144 <=? b1) && (b1 <=? 191)
+             else if b0 =? 244 then (128 <=? b1) && (b1 <=? 143)
+             else utf8_cont b1)
+            && utf8_cont b2 && utf8_cont b3 && valid_utf8 t3
+        | _ => false
+        end
+      else false
+  end.
+
+(* validateOpusTags: vendor, then each comment (name, value); the 2^32 length
+   limits cannot be reached by a list that is actually built *)
+Definition validate_tags (t : tags) : bool :=
+  valid_utf8 (t_vendor t) &&
+  forallb (fun c => valid_comment_name (fst c) && valid_utf8 (snd c)) (t_comments t).
+
+(* which of the two channel errors validateChannelMapping returns:
+   family first (errInvalidChannelMap), then the length of the mapping
+   (errInvalidChannelCount), everything after that errInvalidChannelMap *)
+Definition chmap_err (family : N) (mapping : list N) : string :=
+  if negb ((family =? 1) || (family =? 2) || (family =? 255)) then "channel-map"
+  else if (N.of_nat (length mapping) =? 0) || (255 <? N.of_nat (length mapping)) then "channel-count"
+  else "channel-map".
+
 (* ------------------------------------------------------------------ *)
 (* per-track state, writePage *)
 
@@ -287,6 +335,43 @@ Definition default_preskip : N := 3840.
 
 Definition new_track (rate : N) (cm : chmap) (serial : N) (t : tags) : track :=
   mkTrack rate cm default_preskip serial t 0 0 None.
+
+(* Writer.NewTrack(ssrc, WithSerial, WithSampleRate, WithChannelCount |
+   WithChannelMapping, WithVendor, WithUserComments): duplicate SSRC, the
+   options in that order, validateOpusTags, duplicate serial.  used = (ssrc,
+   serial) of the tracks registered so far. *)
+Record tcfg := mkTcfg {
+  tc_ssrc : N; tc_serial : N; tc_rate : N;
+  tc_family : N;          (* 0: WithChannelCount(tc_channels), else WithChannelMapping *)
+  tc_channels : N; tc_streams : N; tc_coupled : N; tc_mapping : list N;
+  tc_tags : tags
+}.
+
+Definition new_track_checked (used : list (N * N)) (c : tcfg) : result track :=
+  if existsb (fun u => fst u =? tc_ssrc c) used then Err "dup-ssrc"
+  else
+    match (if tc_family c =? 0
+           then match default_chmap (tc_channels c) with Some m => Ok m | None => Err "channel-count" end
+           else match validate_chmap (tc_family c) (tc_streams c) (tc_coupled c) (tc_mapping c) with
+                | Some m => Ok m
+                | None => Err (chmap_err (tc_family c) (tc_mapping c))
+                end) with
+    | Ok cm =>
+        if negb (validate_tags (tc_tags c)) then Err "tags"
+        else if existsb (fun u => snd u =? tc_serial c) used then Err "dup-serial"
+        else Ok (new_track (tc_rate c) cm (tc_serial c) (tc_tags c))
+    | Err e => Err e
+    | Panic => Panic
+    end.
+
+(* successive NewTrack calls: the result of each, and the tracks registered *)
+Fixpoint add_tracks (used : list (N * N)) (cs : list tcfg) : list (result track) :=
+  match cs with
+  | [] => []
+  | c :: rest =>
+      let r := new_track_checked used c in
+      r :: add_tracks (match r with Ok _ => used ++ [(tc_ssrc c, tc_serial c)] | _ => used end) rest
+  end.
 
 Definition set_pages (tr : track) (idx : N) (last : option lastpage) : track :=
   mkTrack (tr_rate tr) (tr_map tr) (tr_preskip tr) (tr_serial tr) (tr_tags tr)
